@@ -1461,6 +1461,13 @@ func (c *Cache) handleCacheHit(
 	// the pre-Phase-3d !w.Internal() guard.
 	if depth := cnameChaseDepth(ctx); depth < maxCnameChaseDepth {
 		msg = c.additionalAnswer(withCnameChaseDepth(ctx, depth+1), msg)
+		// The chase can trip the request tree's work budget. msg was
+		// materialized from the entry and carries no OPT, so the policy
+		// EDE the chase set on it went nowhere: rebuild the failure from
+		// the client's request, as the miss path's write-back does.
+		if msg.Rcode == dns.RcodeServerFailure && middleware.RecursionWorkEnforcementError(ctx) != nil {
+			msg = recursionWorkFailureFor(ctx, req)
+		}
 	}
 
 	_ = w.WriteMsg(msg)
@@ -1787,7 +1794,13 @@ func (w *ResponseWriter) recursionWorkFailure(fallback *dns.Msg) *dns.Msg {
 	if req == nil {
 		req = fallback
 	}
-	edeCode, edeText := middleware.RecursionWorkEDE(w.ctx)
+	return recursionWorkFailureFor(w.ctx, req)
+}
+
+// recursionWorkFailureFor builds the over-budget SERVFAIL for req, with the
+// request tree's policy EDE when req carries an OPT.
+func recursionWorkFailureFor(ctx context.Context, req *dns.Msg) *dns.Msg {
+	edeCode, edeText := middleware.RecursionWorkEDE(ctx)
 	do := false
 	if opt := req.IsEdns0(); opt != nil {
 		do = opt.Do()
